@@ -194,6 +194,7 @@ func (p *c08prop) Gen(kind string, idx int64, seed int64, tier string) core.Case
 			n = 300000
 		}
 		_, stream := gen.Bytes(r, n, c.Hint())
+		c.TameBig()
 		cc := C08Case{Cfg: c, Stream: stream}
 		for _, ch := range []int{1000, 4096, 20000, 49152} {
 			var steps []RStep
@@ -232,6 +233,7 @@ func (p *c08prop) Gen(kind string, idx int64, seed int64, tier string) core.Case
 			n = 65536 + r.Intn(17) - 8
 		}
 		_, stream := gen.Bytes(r, n, c.Hint())
+		c.TameBig()
 		cc := C08Case{Cfg: c, Stream: stream, Edge: true}
 		// all at once, data together with io.EOF; all at once, io.EOF in a
 		// call of its own; 32 KiB pieces; 1000 byte pieces with io.EOF
